@@ -79,6 +79,9 @@ def boundary_cases(rnd, tier):
         ds = [d for d in range(7) if m >> d & 1]
         for _ in range(8 if tier == "thorough" else 2):
             cs.append(with_args(rnd, 6, [world.rand_clock(rnd, 0), world.rand_clock(rnd, 0), ds, rnd.choice(["set", "list", "tuple", "frozenset"])]))
+    for t in ["00:00", "10:00", "23:59", "7:05", "07:05"] + [world.rand_clock(rnd, 0) for _ in range(6)]:       # the end is the start, or before it
+        cs.append(with_args(rnd, 6, [t, t, rnd.choice([[], [0], [2, 5]]), "set"]))
+        cs.append(with_args(rnd, 6, [t, world.rand_clock(rnd, 0), [], "set"])); cs.append(with_args(rnd, 6, ["23:00", "01:00", [6], "list"]))
     for bad in world.BAD_CLOCKS:
         cs.append(with_args(rnd, 6, [bad, "10:00", [0], "set"])); cs.append(with_args(rnd, 6, ["10:00", bad, [], "set"]))
     for ds in ([0, 0], [1, 2, 1], [6, 6, 6], [3, 4, 5, 3], [0] * 7, list(range(7)) + [3]):
